@@ -45,9 +45,23 @@ def patches_for(prop):
     return out
 
 
-def benign_patches():
-    return [(os.path.basename(d), os.path.join(d, "patch.diff")) for d in sorted(glob.glob(os.path.join(harness.VERIF, "benign", "*")))
+def benign_patches(prop=None):
+    """Behaviour-preserving patches for the self-test of `prop`: the ones written against that property (their meta.json names
+    it) plus a fixed, evenly spaced sample of the others, so that a cold thorough run stays within minutes; VERIF_SELFTEST_ALL=1
+    (and tools/regress.py) use the whole corpus."""
+    allp = [(os.path.basename(d), os.path.join(d, "patch.diff")) for d in sorted(glob.glob(os.path.join(harness.VERIF, "benign", "*")))
             if os.path.exists(os.path.join(d, "patch.diff"))]
+    if prop is None or os.environ.get("VERIF_SELFTEST_ALL"):
+        return allp
+    own, rest = [], []
+    for sid, p in allp:
+        try:
+            meta = json.load(open(os.path.join(os.path.dirname(p), "meta.json")))
+        except Exception:
+            meta = {}
+        (own if str(meta.get("property", "")).upper().startswith(prop) else rest).append((sid, p))
+    step = max(1, len(rest) // 20)
+    return own + rest[::step][:20]
 
 
 def base_key():
@@ -117,7 +131,7 @@ def evaluate(props, d):
 
 def run(prop, workers=5):
     muts = patches_for(prop)
-    ben = benign_patches()
+    ben = benign_patches(prop)
     res = {"patches": len(muts), "caught": [], "missed": [], "errors": [], "benign_patches": len(ben), "benign_silent": 0,
            "false_alarms": []}
     if not muts and not ben:
